@@ -196,7 +196,7 @@ Next1 ==
        [] k = "ThreadExit" -> p' = [p EXCEPT !.alive = p.alive \ {e.name}] /\ NoFlag
        [] k = "Hang" -> Flag(<<"Hang">>) /\ p' = p
        [] k = "Crash" -> Flag(<<"Crash">>) /\ p' = p
-       [] k \in {"End", "Sched", "DevOpen", "DevClose", "DevOpenFail", "DevUse", "CamTrig", "CamNoData", "CamSetFail"} -> p' = p /\ NoFlag
+       [] k \in {"End", "Sched", "DevOpen", "DevClose", "DevOpenFail", "DevUse", "CamTrig", "CamNoData", "CamSetFail", "Query"} -> p' = p /\ NoFlag
        [] OTHER -> Flag(<<"UnknownEvent">>) /\ p' = p
 
 Finish ==
